@@ -1,7 +1,7 @@
 // C12: hexsim::Processor constructed inside storage that was pre-filled with a byte pattern - the planted,
 // deterministic version of "whatever the host's stack and heap hold".
 //   c12fill IMAGE INPUT [--max-cycles N] [--trace]
-// Runs the image under fills 0x00, 0xA5, 0xFF and an address-dependent pattern; prints one JSON object
+// Runs the image under fills 0x00, 0xA5, 0xFF, 0x01 and an address-dependent pattern; prints one JSON object
 // with the result of every run (return value of run(), still-running flag, console bytes, input position).
 #include <cassert>
 #include <cstdio>
@@ -31,9 +31,9 @@ int main(int argc, char **argv) {
   }
   std::string input = slurp(argv[2]);
   vjson::Arr runs;
-  for (int fill = 0; fill < 4; fill++) {
+  for (int fill = 0; fill < 5; fill++) {
     for (size_t i = 0; i < sizeof storage; i++)
-      storage[i] = fill == 0 ? 0x00 : fill == 1 ? 0xA5 : fill == 2 ? 0xFF : (unsigned char)(i * 131 + (i >> 8) * 7 + 13);
+      storage[i] = fill == 0 ? 0x00 : fill == 1 ? 0xA5 : fill == 2 ? 0xFF : fill == 4 ? 0x01 : (unsigned char)(i * 131 + (i >> 8) * 7 + 13);
     for (int i = 0; i < 8; i++) unlink(("simout" + std::to_string(i)).c_str());
     std::istringstream in(input);
     std::ostringstream out;
@@ -41,7 +41,7 @@ int main(int argc, char **argv) {
     o.num("fill", fill);
     int rv = 0; bool running = false; std::string err;
     // fresh heap blocks and the stack below this frame hold the same planted byte as the object's storage
-    int fb = fill == 0 ? 0x00 : fill == 1 ? 0xA5 : fill == 2 ? 0xFF : 0x3C;
+    int fb = fill == 0 ? 0x00 : fill == 1 ? 0xA5 : fill == 2 ? 0xFF : fill == 4 ? 0x01 : 0x3C;   // 0x01: an uninitialised bool that reads as a well-formed `true`
     fillnew::set(fb); fillnew::poisonStack(fb);
     {
       hexsim::Processor *p = new (storage) hexsim::Processor(in, out, maxCycles);
